@@ -20,7 +20,7 @@ TOY_CLASSES = ["highdeg", "lowzero", "killed", "under", "under2", "layer", "kern
 REAL_CLASSES = ["layer", "kernel", "rem", "remcraft", "under", "under2", "evalchg", "each"]
 
 META = dict(
-    technique="TLA+ specification of the FRI verifier evaluated by TLC on concrete adversarial toy instances (expected verdict computed per instance, with and without the commitment comparisons); TLC-computed forged openings/remainders written into real proofs (Generate->Replay); real FriVerifier run over DefaultVerifierChannel and over a permissive VerifierChannel (vacuity guard)",
+    technique="TLC trace validation of the FRI commit-phase coin schedule recorded on both sides of honest real-field runs (FriSchedule.tla) + TLA+ specification of the FRI verifier evaluated by TLC on concrete adversarial toy instances (expected verdict computed per instance, with and without the commitment comparisons); TLC-computed forged openings/remainders written into real proofs (Generate->Replay); real FriVerifier run over DefaultVerifierChannel and over a permissive VerifierChannel (vacuity guard)",
     text="For every schedule with domain 8..128 (256 thorough) and each applicable class, the real verifier's verdict equals the verdict of Fri.tla's verifier on the same instance: polynomials of degree bound+1..n-1 and arbitrary functions under many queries, understated bounds, every kind of substituted opening. Kernel-vector layer forgeries and remainders r + c*prod(x - x_i) are shown (on the real verifier, permissive channel) to pass every algebraic check and are rejected by the real verifier over DefaultVerifierChannel (LayerCommitmentMismatch / RemainderCommitmentMismatch). The same deterministic classes run over f64/f62/f128 with extensions and all hash functions.",
     note="Soundness against adaptive provers in general (the FRI soundness error) is not decided: the classes are those listed. High-degree data over toy fields uses the verdict computed by TLC for the scripted challenges (no probabilistic expectation); over the production fields only classes rejecting deterministically or with failure probability < 2^-40 are used. Hash functions are ideal in the specification.",
     design="7/C09")
@@ -63,6 +63,8 @@ def run_engine(ck, binary, engine, name, scenarios, guard_fail):
             guard_fail.append({"scenario": small(sc), "detail": det})
         elif kind == "skip":
             skipped[sc["cls"]] += 1
+        elif kind == "schedule":
+            SCHEDULES.append((sc, det))
         else:
             info[kind + ":" + sc["cls"]] += 1
             if len(examples) < 3:
@@ -75,6 +77,28 @@ def run_engine(ck, binary, engine, name, scenarios, guard_fail):
     ck.part("replay:" + name, scenarios=summary["scenarios"], strict_runs=summary["strict_runs"],
             perm_runs=summary["perm_runs"], skipped=dict(skipped), informational=dict(info), examples=examples)
     return summary, skipped, info
+
+
+SCHEDULES = []
+
+
+def schedule_part(ck):
+    """FriSchedule.tla: the recorded coin events of the honest real-field runs must follow the commit-then-draw
+    schedule (every layer commitment absorbed before its folding challenge is drawn, on both sides)."""
+    rows = [d for _, d in SCHEDULES]
+    ck.require(len(rows) >= 50, "too few FRI coin schedules recorded: %d" % len(rows))
+    ck.require(any(r["layers"] >= 2 for r in rows), "no recorded schedule with two or more layers")
+    rejected, st, tr = vf.validate_trace("FriSchedule.tla", "FriSchedule.cfg", SPECDIR, rows, "c09s")
+    ck.states += st
+    ck.transitions += tr
+    ck.traces += len(rows)
+    for idx, row in rejected:
+        sc = SCHEDULES[idx][0]
+        ck.violation("FRI public-coin schedule: a folding challenge does not follow the absorption of its layer commitment",
+                     "%s ext=%s N=%s layers=%d :: prover=%s verifier=%s" % (sc["field"], sc["ext"], sc["N"], row["layers"],
+                         json.dumps([e["e"] for e in row["prover"]]), json.dumps([e["e"] for e in row["verifier"]])),
+                     {"engine": "realattack", "scenario": sc, "schedule": row})
+    ck.part("schedule", validated=len(rows), rejected=len(rejected))
 
 
 def generate(ck, tier):
@@ -121,6 +145,7 @@ def run(ck, tier):
     guard_fail = []
     _, sk1, info1 = run_engine(ck, binary, "attack", "toy", toy, guard_fail)
     _, sk2, info2 = run_engine(ck, binary, "realattack", "real", real, guard_fail)
+    schedule_part(ck)
     if guard_fail:
         raise vf.ToolError("vacuity guard: a crafted forgery does not pass the algebraic checks of the real verifier "
                            "(the forgery is ill-formed for this code, nothing can be concluded): %s" % json.dumps(guard_fail[0])[:1500])
@@ -143,5 +168,11 @@ def replay(ck, path):
     binary = vf.build_harness("fri")
     guard_fail = []
     run_engine(ck, binary, obj["engine"], "replay", [obj["scenario"]], guard_fail)
+    if "schedule" in obj:
+        rows = [d for _, d in SCHEDULES]
+        rejected, st, tr = vf.validate_trace("FriSchedule.tla", "FriSchedule.cfg", SPECDIR, rows, "c09sr")
+        for idx, row in rejected:
+            ck.violation("FRI public-coin schedule: a folding challenge does not follow the absorption of its layer commitment",
+                         json.dumps([e["e"] for e in row["verifier"]]), obj)
     if guard_fail:
         raise vf.ToolError("vacuity guard failed on the replayed scenario: %s" % json.dumps(guard_fail[0])[:1500])
